@@ -490,3 +490,24 @@ def module_state_writes(ctx, modname: str, ignore: Sequence[str] = ()) -> List[T
                 if isinstance(root, ast.Name) and root.id in containers and root.id not in local_store and root.id not in params and root.id not in ignore:
                     out.append((fn, x, root.id, f"mutates (.{x.func.attr})"))
     return out
+
+
+
+def separator_joined_ids(fn) -> list:
+    """f-strings of the form f"{a}<sep>{b}..." in fn that join two or more dynamic parts with a constant separator and whose
+    dynamic parts are not passed through an escaping call: the separator may occur inside a part, so two different tuples of
+    parts can give the same text ("a→b","c" / "a","b→c").  Returns (JoinedStr, separator)."""
+    import ast as _ast
+    from .model import walk_no_defs as _w
+    out = []
+    for x in _w(fn.node):
+        if not isinstance(x, _ast.JoinedStr):
+            continue
+        dyn = [v for v in x.values if isinstance(v, _ast.FormattedValue)]
+        seps = [str(v.value) for v in x.values if isinstance(v, _ast.Constant) and str(v.value)]
+        if len(dyn) < 2 or not seps:
+            continue
+        escaped = all(isinstance(v.value, _ast.Call) and not (isinstance(v.value.func, _ast.Name) and v.value.func.id in ("str", "repr", "int")) for v in dyn)
+        if not escaped:
+            out.append((x, seps[0]))
+    return out
